@@ -6,6 +6,7 @@ from vx.unit import C
 from vx.units._cwrite import add_classwrite
 
 PROPS = ['C02']
+RLIMIT = 80
 P = 'duke/src/simple_class_writer/pool.rs'
 CC = 'duke/src/class_constants.rs'
 
